@@ -1,4 +1,5 @@
 import MoPepGen.Lemmas.Rmats
+import MoPepGen.Lemmas.RmatsEvent
 /-!
 # C16 — parseRMATS records reproduce the alternative isoform
 
@@ -12,6 +13,15 @@ Hypotheses are the decidable well-formedness predicates of C11 (`Transcript.WF`:
 non-empty, ascending, separated by ≥ 1 base; `Transcript.Within`: inside the gene, same strand)
 plus `g.loc.stop ≤ chrom.length`; "the event's exons coincide with exons of the transcript" is
 the explicit shape `t.exons = pre ++ … ++ post` with the junction ends equal to the row's.
+
+Contents: RI (complete); junction novelty and the no-emit rules of all types; SE / A5SS / A3SS /
+MXE end to end (`se_skip_spec`, `se_include_spec`, `se_*_exact`, `a5ss_spec_*`, `a3ss_spec_*`,
+`mxe_spec_*`): every record emitted for a transcript that carries one of the two forms of the
+event, with the event's exons consecutive in the transcript, reproduces the other form — the
+alignment step (`align_to_transcript`, interjacent / spanning exons, the cascade of
+`convert_to_variant_records`) is part of the proof (`Lemmas/RmatsAlign.lean`,
+`Lemmas/RmatsEvent.lean`).  Transcripts that match an event only partially are outside these
+statements (differential streams `aln` / `event` and the direct predicate of the harness).
 -/
 namespace MoPepGen.Props.C16
 open MoPepGen MoPepGen.Rmats
@@ -365,28 +375,23 @@ theorem mxe_no_emit_below_threshold (v : MXE) (g : Gene) (minIjc minSjc : Nat) (
   have b : ¬ v.ijc ≥ minIjc := by omega
   simp only [mxeTx, a, b, if_false]; rfl
 
-/-! ## SE (partial), A5SS / A3SS / MXE (statements only)
+/-! ## SE, A5SS, A3SS, MXE: the record constructors on the aligned exons (`_partial`)
 
-FULL STATEMENTS (not yet proved end to end; the right-hand sides are what the harness checks on
-every real record):
-
-* `se_skip_spec` : `t.exons = pre ++ U :: E :: D :: post`, `U.stop = v.ue`, `E = ⟨v.es, v.ee⟩`,
-  `D.start = v.ds`, `t.WF`, `t.Within g`, `seTx v g minIjc minSjc t = .ok rs`, `r ∈ rs` →
-  `applyAS g t.exons (seqOfExons chrom t.strand t.exons) (geneSeq chrom g) r
-     = seqOfExons chrom t.strand (pre ++ U :: D :: post)`
-* `se_include_spec` : `t.exons = pre ++ U :: D :: post`, `U.stop = v.ue < v.es < v.ee < v.ds =
-  D.start`, same hypotheses → `… = seqOfExons chrom t.strand (pre ++ U :: ⟨v.es, v.ee⟩ :: D :: post)`
-* `a5ss_spec`, `a3ss_spec` : the exon adjacent to the flanking exon ends (starts) at the long /
-  short site → the record moves that boundary to the short / long site
-* `mxe_spec` : `pre ++ U :: F₁ :: D :: post` ↦ `pre ++ U :: F₂ :: D :: post` and back.
-
-What IS proved below for SE, both strands, arbitrary `pre` / `post`: the record that each path
-of `convert_to_variant_records` builds once the alignment has found the exons
-(`create_downstream_deletion` on the plus strand, `create_upstream_deletion` on the minus
+The three `_partial` theorems below say, for SE on both strands and arbitrary `pre` / `post`, that
+the record each path of `convert_to_variant_records` builds *once the alignment has found the
+exons* (`create_downstream_deletion` on the plus strand, `create_upstream_deletion` on the minus
 strand, `create_upstream_insertion` for the inclusion form) reproduces the alternative isoform.
-Missing: that `align_to_transcript` / `get_interjacent_exons` / `get_*_spanning` return exactly
-these indices on the decomposed exon list and that the other two junctions of the event emit
-nothing for the transcript — covered by the `aln` and `event` correspondence streams only. -/
+They assume the indices (`spanning`, `interjacent`, `downstream_start_index`).
+
+The FULL statements follow them (sections "SE, end to end", "A5SS / A3SS, end to end", "MXE, end
+to end"): `se_skip_spec`, `se_include_spec`, `a5ss_spec_{long,short}_{plus,minus}`,
+`a3ss_spec_{long,short}_{plus,minus}`, `mxe_spec_first`, `mxe_spec_second` and the `_event`
+variants.  There the indices are no longer assumed: `Lemmas/RmatsAlign.lean` proves what
+`align_to_transcript`, `get_interjacent_exons`, `get_upstream_end_spanning` and
+`get_downstream_start_spanning` return on an exon list decomposed around the exons of the event
+(under `t.WF`), which branch of the cascade is taken, and that every OTHER junction of the event
+either joins two adjacent exons of the transcript (`alignConvert_adjacent`: no record) or can
+only emit a record with the same effect. -/
 
 /-- SE, skip form, the record of the plus-strand path (`create_downstream_deletion` with the
 downstream exon as spanning exon and the skipped exon as the only interjacent one) -/
@@ -557,5 +562,601 @@ theorem se_include_spec_partial {chrom : List Char} {g : Gene} {a : Aln}
       (by rw [← h]; unfold geneIv; simp only [hs]; omega)
       (by rw [← h]; unfold geneIv; simp only [hs]; omega)
 
+
+/-- the skip junction of an SE event (both ends annotated: `upstream_novel = downstream_novel =
+False`) aligned to a transcript that has the cassette exon: `align_to_transcript` finds `U` and
+`D`, `get_interjacent_exons` returns exactly the cassette exon, the spanning search finds `D`
+(plus) / `U` (minus), and the only record is the Deletion of `E` -/
+theorem alignConvert_known_skip {chrom : List Char} {g : Gene} {t : Transcript} {j : Junction}
+    {pre post : List Iv} {U E D : Iv} {rs : List ASRec} {r : ASRec}
+    (he : t.exons = pre ++ U :: E :: D :: post) (hw : t.WF) (hg : t.Within g)
+    (hc : g.loc.stop ≤ chrom.length) (hu : j.ue = U.stop) (hd : j.ds = D.start)
+    (h : alignConvert j g t false false = .ok rs) (hr : r ∈ rs) :
+    applyAS g t.exons (seqOfExons chrom t.strand t.exons) (geneSeq chrom g) r
+      = seqOfExons chrom t.strand (pre ++ U :: D :: post) := by
+  have hch := chain3_of_wf hw he
+  have hin := inGene_of_within hw hg
+  obtain ⟨hp, hP, hPM, hM, hMQ, hQ, hq⟩ := id hch
+  have e2 : pre ++ U :: E :: D :: post = (pre ++ [U, E]) ++ D :: post := by simp
+  have huei : exonWithEnd t.exons j.ue = (pre.length : Int) := by
+    rw [he]; exact exonWithEnd_hit (fun e h => by have := hp e h; omega) hu.symm
+  have hdsi : exonWithStart t.exons j.ds = (pre.length : Int) + 2 := by
+    rw [he, e2, exonWithStart_hit (by
+      intro e h
+      simp only [List.mem_append, List.mem_cons, List.not_mem_nil, or_false] at h
+      rcases h with h | rfl | rfl
+      · have := hp e h; omega
+      · omega
+      · omega) hd.symm]
+    simp
+  rw [alignConvert_known] at h
+  generalize ha : alnOf j t.exons false false = a at h
+  have haj : a.j = j := by rw [← ha]; rfl
+  have hau : a.uei = (pre.length : Int) := by rw [← ha]; exact huei
+  have had : a.dsi = ((pre ++ [U, E]).length : Int) := by rw [← ha]; simp; exact hdsi
+  have hun : a.un = false := by rw [← ha]; rfl
+  have hdn : a.dn = false := by rw [← ha]; rfl
+  have hinter : getInterjacent a t.exons = .ok [pre.length + 1] := by
+    rw [he, getInterjacent_fwd hau (by rw [had]; simp; omega) (by simp), haj,
+      interFwd_hit (interjacentTest_true (by omega) (by omega) (by omega))
+        (interjacentBreak_false (by omega) (by omega)),
+      interFwd_stop (interjacentTest_false (by omega)) (interjacentBreak_true (by omega))]
+  rw [convertAln_known hun hdn hinter] at h
+  have hp' : ∀ e ∈ pre, e.stop ≤ U.start := fun e h => by have := hp e h; omega
+  have hq' : ∀ e ∈ post, D.stop ≤ e.start := fun e h => by have := hq e h; omega
+  cases hst : t.strand with
+  | plus =>
+    have hsp : getDownstreamStartSpanning a t.exons = ((pre.length + 2 : Nat) : Int) := by
+      rw [he, getDownstreamStartSpanning_fwd hau, haj]
+      unfold idxWhere
+      rw [contains_false (by omega)]
+      simp only [Bool.false_eq_true, if_false]
+      unfold idxWhere
+      rw [contains_true (by omega) (by omega)]
+      simp only [if_true]
+    have hrec := convKnown_plus_del_mem hst (Or.inr (by simp)) hsp h hr
+    rw [← hst, hg.1]
+    rw [he] at hrec hin ⊢
+    exact se_skip_spec_partial_plus_path hin hc hp' (by omega) (by omega) hM (by omega) hq'
+      (by rw [haj]; exact hd.symm) hrec
+  | minus =>
+    have hsp : getUpstreamEndSpanning a t.exons = ((pre.length : Nat) : Int) := by
+      rw [he, e2, getUpstreamEndSpanning_bwd (by rw [haj]; omega) had]
+      simp only [List.reverse_append, List.reverse_cons, List.reverse_nil, List.nil_append,
+        List.cons_append, haj]
+      unfold idxWhereDown
+      rw [contains_false (by omega)]
+      simp only [Bool.false_eq_true, if_false]
+      unfold idxWhereDown
+      rw [contains_true (by omega) (by omega)]
+      simp
+    have hrec := convKnown_minus_del_mem hst (Or.inr (by simp)) hsp h hr
+    rw [← hst, hg.1]
+    rw [he] at hrec hin ⊢
+    exact se_skip_spec_partial_minus_path hin hc hp' (by omega) (by omega) hM (by omega) hq'
+      (by rw [haj]; exact hu.symm) hrec
+
+/-! ## SE, end to end -/
+
+/-- **Skipped exon, transcript has the cassette exon** (`… U E D …`, `U` ending at
+`upstreamEE`, `E` = the event's exon, `D` starting at `downstreamES`).  Every record the loop
+body of `SERecord.convert_to_variant_records` emits for that transcript — from any of the three
+junctions, any thresholds, both strands — applied to the transcript sequence gives the sequence
+of the isoform without `E`.  (The two inclusion junctions `U → E`, `E → D` join adjacent exons of
+the transcript and emit nothing; the skip junction emits the Deletion of `E`.) -/
+theorem se_skip_spec (chrom : List Char) (g : Gene) (v : SE) (minIjc minSjc : Nat)
+    (t : Transcript) (pre post : List Iv) (U E D : Iv) (rs : List ASRec) (r : ASRec)
+    (he : t.exons = pre ++ U :: E :: D :: post) (hw : t.WF) (hg : t.Within g)
+    (hc : g.loc.stop ≤ chrom.length)
+    (hU : U.stop = v.ue) (hE : E = ⟨v.es, v.ee⟩) (hD : D.start = v.ds)
+    (h : seTx v g minIjc minSjc t = .ok rs) (hr : r ∈ rs) :
+    applyAS g t.exons (seqOfExons chrom t.strand t.exons) (geneSeq chrom g) r
+      = seqOfExons chrom t.strand (pre ++ U :: D :: post) := by
+  have hch := chain3_of_wf hw he
+  rcases seTx_mem h hr with ⟨_, rs', h', hr'⟩ | ⟨_, rs', h', hr'⟩ | ⟨_, rs', h', hr'⟩
+  · exact alignConvert_known_skip he hw hg hc hU.symm hD.symm h' hr'
+  · rw [alignConvert_adjacent he hch.left (by simp [SE.upJ, hU]) (by simp [SE.upJ, hE])] at h'
+    cases h'; cases hr'
+  · have he' : t.exons = (pre ++ [U]) ++ E :: D :: post := by simp [he]
+    rw [alignConvert_adjacent he' hch.right (by simp [SE.downJ, hE]) (by simp [SE.downJ, hD])] at h'
+    cases h'; cases hr'
+
+/-- **Skipped exon, transcript lacks the cassette exon** (`… U D …`, `U` ending at
+`upstreamEE`, `D` starting at `downstreamES`, the event's exon strictly inside the intron).
+Every record emitted for that transcript gives the sequence of the isoform with the exon
+`[exonStart, exonEnd)` included between `U` and `D`, on both strands.  (The skip junction joins
+adjacent exons and emits nothing; `U → E` can only emit the downstream Insertion and `E → D`
+the upstream Insertion of the same exon.) -/
+theorem se_include_spec (chrom : List Char) (g : Gene) (v : SE) (minIjc minSjc : Nat)
+    (t : Transcript) (pre post : List Iv) (U D : Iv) (rs : List ASRec) (r : ASRec)
+    (he : t.exons = pre ++ U :: D :: post) (hw : t.WF) (hg : t.Within g)
+    (hc : g.loc.stop ≤ chrom.length)
+    (hU : U.stop = v.ue) (hD : D.start = v.ds)
+    (h1 : v.ue < v.es) (h2 : v.es < v.ee) (h3 : v.ee < v.ds)
+    (h : seTx v g minIjc minSjc t = .ok rs) (hr : r ∈ rs) :
+    applyAS g t.exons (seqOfExons chrom t.strand t.exons) (geneSeq chrom g) r
+      = seqOfExons chrom t.strand (pre ++ U :: ⟨v.es, v.ee⟩ :: D :: post) := by
+  have hch := chain2_of_wf hw he
+  rcases seTx_mem h hr with ⟨_, rs', h', hr'⟩ | ⟨_, rs', h', hr'⟩ | ⟨_, rs', h', hr'⟩
+  · rw [alignConvert_adjacent he hch (by simp [SE.skipJ, hU]) (by simp [SE.skipJ, hD])] at h'
+    cases h'; cases hr'
+  · rw [alignConvert_dn_intron (j := v.upJ) he hw hg hc (by simp [SE.upJ, hU])
+      (by simp only [SE.upJ]; omega) (by simp only [SE.upJ]; omega) (by simp only [SE.upJ]; omega)
+      h' hr']
+    have : min D.start v.ee = v.ee := by omega
+    simp only [SE.upJ, this]
+  · rw [alignConvert_un_intron (j := v.downJ) he hw hg hc (by simp [SE.downJ, hD])
+      (by simp only [SE.downJ]; omega) (by simp only [SE.downJ]; omega)
+      (by simp only [SE.downJ]; omega) h' hr']
+    have : max U.stop v.es = v.es := by omega
+    simp only [SE.downJ, this]
+
+/-- SE, transcript has the cassette exon: the two inclusion junctions `U → E` and `E → D` emit
+NO record for it (they join exons that are adjacent in the transcript), whatever the flags'
+values would suggest; so every record of `se_skip_spec` comes from the skip junction -/
+theorem se_skip_inclusion_junctions_silent (g : Gene) (v : SE) (t : Transcript)
+    (pre post : List Iv) (U E D : Iv)
+    (he : t.exons = pre ++ U :: E :: D :: post) (hw : t.WF)
+    (hU : U.stop = v.ue) (hE : E = ⟨v.es, v.ee⟩) (hD : D.start = v.ds) :
+    alignConvert v.upJ g t false true = .ok [] ∧ alignConvert v.downJ g t true false = .ok [] := by
+  have hch := chain3_of_wf hw he
+  have he' : t.exons = (pre ++ [U]) ++ E :: D :: post := by simp [he]
+  exact ⟨alignConvert_adjacent he hch.left (by simp [SE.upJ, hU]) (by simp [SE.upJ, hE]),
+    alignConvert_adjacent he' hch.right (by simp [SE.downJ, hE]) (by simp [SE.downJ, hD])⟩
+
+/-- SE, transcript lacks the cassette exon: the skip junction `U → D` emits NO record for it -/
+theorem se_include_skip_junction_silent (g : Gene) (v : SE) (t : Transcript)
+    (pre post : List Iv) (U D : Iv)
+    (he : t.exons = pre ++ U :: D :: post) (hw : t.WF)
+    (hU : U.stop = v.ue) (hD : D.start = v.ds) :
+    alignConvert v.skipJ g t false false = .ok [] :=
+  alignConvert_adjacent he (chain2_of_wf hw he) (by simp [SE.skipJ, hU]) (by simp [SE.skipJ, hD])
+
+/-- **SE, transcript has the cassette exon: the exact output of the loop body.**  For every gene
+containing the transcript, both strands, any thresholds: exactly one record, the Deletion of the
+gene interval of `E`, iff `SJC ≥ min_sjc` — except that on the minus strand the code also
+requires `tx_end > downstream_exon_start + 1` (nothing is emitted when the downstream exon is a
+1-nt last exon).  In particular the call never raises and no junction emits anything else. -/
+theorem se_skip_exact (g : Gene) (v : SE) (minIjc minSjc : Nat)
+    (t : Transcript) (pre post : List Iv) (U E D : Iv)
+    (he : t.exons = pre ++ U :: E :: D :: post) (hw : t.WF) (hg : t.Within g)
+    (hU : U.stop = v.ue) (hE : E = ⟨v.es, v.ee⟩) (hD : D.start = v.ds) :
+    seTx v g minIjc minSjc t
+      = .ok (if v.sjc ≥ minSjc ∧ (t.strand = .plus ∨ t.spanStop > v.ds + 1)
+          then [⟨.deletion, (geneIv g E).start, (geneIv g E).stop, 0, 0⟩] else []) := by
+  obtain ⟨h2, h3⟩ := se_skip_inclusion_junctions_silent g v t pre post U E D he hw hU hE hD
+  have h1 := alignConvert_known_skip_exact (j := v.skipJ) he hw hg hU.symm hD.symm
+  unfold seTx
+  rw [h1, h2, h3]
+  simp only [SE.skipJ, delRec]
+  by_cases c1 : v.sjc ≥ minSjc <;> by_cases c2 : v.ijc ≥ minIjc <;>
+    by_cases c3 : (t.strand = .plus ∨ t.spanStop > v.ds + 1) <;>
+    simp [c1, c2, c3, bind, Except.bind, pure, Except.pure]
+
+/-- **SE, transcript lacks the cassette exon: the exact output of the loop body.**  Exactly one
+record iff `IJC ≥ min_ijc`: the Insertion of the gene interval of the event's exon after the last
+transcript base before the intron (`c` = number of gene bases upstream of the insertion point).
+It comes from the junction `E → D`; `U → D` and `U → E` emit nothing. -/
+theorem se_include_exact (g : Gene) (v : SE) (minIjc minSjc : Nat)
+    (t : Transcript) (pre post : List Iv) (U D : Iv)
+    (he : t.exons = pre ++ U :: D :: post) (hw : t.WF) (hg : t.Within g)
+    (hU : U.stop = v.ue) (hD : D.start = v.ds)
+    (h1 : v.ue < v.es) (h2 : v.es < v.ee) (h3 : v.ee < v.ds) :
+    seTx v g minIjc minSjc t
+      = .ok (if v.ijc ≥ minIjc
+          then
+            let c := match g.strand with | .plus => v.ue - g.loc.start | .minus => g.loc.stop - v.ds
+            [⟨.insertion, c - 1, c, (geneIv g ⟨v.es, v.ee⟩).start, (geneIv g ⟨v.es, v.ee⟩).stop⟩]
+          else []) := by
+  have hch := chain2_of_wf hw he
+  have ha := se_include_skip_junction_silent g v t pre post U D he hw hU hD
+  have hb := alignConvert_dn_intron_silent (g := g) (j := v.upJ) he hw (by simp [SE.upJ, hU])
+    (by simp only [SE.upJ]; omega) (by simp only [SE.upJ]; omega)
+    (by
+      rw [he]
+      obtain ⟨hp, hP, hPQ, hQ, hq⟩ := hch
+      simp only [SE.upJ]
+      chain2_mem hp hq)
+  have hc := alignConvert_un_intron_exact (j := v.downJ) he hw hg (by simp [SE.downJ, hD])
+    (by simp only [SE.downJ]; omega) (by simp only [SE.downJ]; omega)
+    (by simp only [SE.downJ]; omega)
+  have hm' : max v.ue v.es = v.es := by omega
+  unfold seTx
+  rw [ha, hb, hc]
+  simp only [SE.downJ, insRec, cut, hU, hD]
+  by_cases c1 : v.sjc ≥ minSjc <;> by_cases c2 : v.ijc ≥ minIjc <;>
+    cases hs : g.strand <;>
+    simp [c1, c2, hm', bind, Except.bind, pure, Except.pure]
+
+/-- `se_skip_spec` for a record of the whole `SERecord.convert_to_variant_records` call: the
+record tagged with transcript index `i` -/
+theorem se_skip_spec_event (chrom : List Char) (g : Gene) (txs : List Transcript) (v : SE)
+    (minIjc minSjc : Nat) (out : List (Nat × ASRec)) (i : Nat) (r : ASRec) (t : Transcript)
+    (pre post : List Iv) (U E D : Iv)
+    (hout : seConvert v g txs minIjc minSjc = .ok out) (hm : (i, r) ∈ out)
+    (hi : txs[i]? = some t) (he : t.exons = pre ++ U :: E :: D :: post)
+    (hw : t.WF) (hg : t.Within g) (hc : g.loc.stop ≤ chrom.length)
+    (hU : U.stop = v.ue) (hE : E = ⟨v.es, v.ee⟩) (hD : D.start = v.ds) :
+    applyAS g t.exons (seqOfExons chrom t.strand t.exons) (geneSeq chrom g) r
+      = seqOfExons chrom t.strand (pre ++ U :: D :: post) := by
+  obtain ⟨t', rs, ht', h, hr⟩ := seConvert_mem hout hm
+  rw [hi] at ht'; cases ht'
+  exact se_skip_spec chrom g v minIjc minSjc t pre post U E D rs r he hw hg hc hU hE hD h hr
+
+/-- `se_include_spec` for a record of the whole `SERecord.convert_to_variant_records` call -/
+theorem se_include_spec_event (chrom : List Char) (g : Gene) (txs : List Transcript) (v : SE)
+    (minIjc minSjc : Nat) (out : List (Nat × ASRec)) (i : Nat) (r : ASRec) (t : Transcript)
+    (pre post : List Iv) (U D : Iv)
+    (hout : seConvert v g txs minIjc minSjc = .ok out) (hm : (i, r) ∈ out)
+    (hi : txs[i]? = some t) (he : t.exons = pre ++ U :: D :: post)
+    (hw : t.WF) (hg : t.Within g) (hc : g.loc.stop ≤ chrom.length)
+    (hU : U.stop = v.ue) (hD : D.start = v.ds)
+    (h1 : v.ue < v.es) (h2 : v.es < v.ee) (h3 : v.ee < v.ds) :
+    applyAS g t.exons (seqOfExons chrom t.strand t.exons) (geneSeq chrom g) r
+      = seqOfExons chrom t.strand (pre ++ U :: ⟨v.es, v.ee⟩ :: D :: post) := by
+  obtain ⟨t', rs, ht', h, hr⟩ := seConvert_mem hout hm
+  rw [hi] at ht'; cases ht'
+  exact se_include_spec chrom g v minIjc minSjc t pre post U D rs r he hw hg hc hU hD h1 h2 h3 h hr
+
+/-! ## A5SS / A3SS, end to end
+
+The alternative site lies on the exon genomically upstream of the flanking exon for A5SS on `+`
+and A3SS on `-` (junctions `(long|short exon) → flanking`, `upstream_novel = True`) and on the
+exon downstream of it for A5SS on `-` and A3SS on `+` (junctions `flanking → (long|short exon)`,
+`downstream_novel = True`).  In each of the eight theorems the transcript has the two exons of
+one form adjacent; every record of the whole `convert_to_variant_records` call tagged with that
+transcript moves the exon boundary to the site of the other form: long → short is the Deletion
+of the segment between the sites, short → long the Insertion of it.  The junction of the form
+the transcript already has joins adjacent exons and emits nothing. -/
+
+/-- A5SS, `+` strand, transcript uses the LONG site (`… L F …`, `L` ending at `longExonEnd`, `F` =
+flanking exon): the record gives the isoform whose exon ends at `shortExonEnd` -/
+theorem a5ss_spec_long_plus (chrom : List Char) (g : Gene) (txs : List Transcript) (v : AxSS)
+    (minIjc minSjc : Nat) (out : List (Nat × ASRec)) (i : Nat) (r : ASRec) (t : Transcript)
+    (pre post : List Iv) (L F : Iv) (hs : g.strand = .plus)
+    (hout : a5Convert v g txs minIjc minSjc = .ok out) (hm : (i, r) ∈ out)
+    (hi : txs[i]? = some t) (he : t.exons = pre ++ L :: F :: post)
+    (hw : t.WF) (hg : t.Within g) (hc : g.loc.stop ≤ chrom.length)
+    (hL : L.stop = v.le) (hF : F.start = v.fs) (h1 : L.start < v.se) (h2 : v.se < v.le) :
+    applyAS g t.exons (seqOfExons chrom t.strand t.exons) (geneSeq chrom g) r
+      = seqOfExons chrom t.strand (pre ++ ⟨L.start, v.se⟩ :: F :: post) := by
+  obtain ⟨t', rs, ht', h, hr⟩ := a5Convert_mem_plus hs hout hm
+  rw [hi] at ht'; cases ht'
+  exact axTx_up_long he hw hg hc hL.symm hF.symm hF.symm h1 (by simp only; omega) h hr
+
+/-- A5SS, `+` strand, transcript uses the SHORT site (`… S F …`, `S` ending at `shortExonEnd`):
+the record gives the isoform whose exon ends at `longExonEnd` -/
+theorem a5ss_spec_short_plus (chrom : List Char) (g : Gene) (txs : List Transcript) (v : AxSS)
+    (minIjc minSjc : Nat) (out : List (Nat × ASRec)) (i : Nat) (r : ASRec) (t : Transcript)
+    (pre post : List Iv) (S F : Iv) (hs : g.strand = .plus)
+    (hout : a5Convert v g txs minIjc minSjc = .ok out) (hm : (i, r) ∈ out)
+    (hi : txs[i]? = some t) (he : t.exons = pre ++ S :: F :: post)
+    (hw : t.WF) (hg : t.Within g) (hc : g.loc.stop ≤ chrom.length)
+    (hS : S.stop = v.se) (hF : F.start = v.fs)
+    (h1 : v.se < v.le) (h2 : v.le ≤ v.fs) (h3 : v.ls ≤ v.se) :
+    applyAS g t.exons (seqOfExons chrom t.strand t.exons) (geneSeq chrom g) r
+      = seqOfExons chrom t.strand (pre ++ ⟨S.start, v.le⟩ :: F :: post) := by
+  obtain ⟨t', rs, ht', h, hr⟩ := a5Convert_mem_plus hs hout hm
+  rw [hi] at ht'; cases ht'
+  exact axTx_up_short he hw hg hc hS.symm hF.symm hF.symm (by simp only; omega)
+    (by simp only; omega) (by simp only; omega) h hr
+
+/-- A5SS, `-` strand, transcript uses the LONG site (`… F L …`, `F` = flanking exon, `L` starting
+at `longExonStart`): the record gives the isoform whose exon starts at `shortExonStart` -/
+theorem a5ss_spec_long_minus (chrom : List Char) (g : Gene) (txs : List Transcript) (v : AxSS)
+    (minIjc minSjc : Nat) (out : List (Nat × ASRec)) (i : Nat) (r : ASRec) (t : Transcript)
+    (pre post : List Iv) (F L : Iv) (hs : g.strand = .minus)
+    (hout : a5Convert v g txs minIjc minSjc = .ok out) (hm : (i, r) ∈ out)
+    (hi : txs[i]? = some t) (he : t.exons = pre ++ F :: L :: post)
+    (hw : t.WF) (hg : t.Within g) (hc : g.loc.stop ≤ chrom.length)
+    (hF : F.stop = v.fe) (hL : L.start = v.ls) (h1 : v.ls < v.ss) (h2 : v.ss < L.stop) :
+    applyAS g t.exons (seqOfExons chrom t.strand t.exons) (geneSeq chrom g) r
+      = seqOfExons chrom t.strand (pre ++ F :: ⟨v.ss, L.stop⟩ :: post) := by
+  obtain ⟨t', rs, ht', h, hr⟩ := a5Convert_mem_minus hs hout hm
+  rw [hi] at ht'; cases ht'
+  exact axTx_down_long he hw hg hc hF.symm hL.symm hF.symm (by simp only; omega) h2 h hr
+
+/-- A5SS, `-` strand, transcript uses the SHORT site (`… F S …`, `S` starting at
+`shortExonStart`): the record gives the isoform whose exon starts at `longExonStart` -/
+theorem a5ss_spec_short_minus (chrom : List Char) (g : Gene) (txs : List Transcript) (v : AxSS)
+    (minIjc minSjc : Nat) (out : List (Nat × ASRec)) (i : Nat) (r : ASRec) (t : Transcript)
+    (pre post : List Iv) (F S : Iv) (hs : g.strand = .minus)
+    (hout : a5Convert v g txs minIjc minSjc = .ok out) (hm : (i, r) ∈ out)
+    (hi : txs[i]? = some t) (he : t.exons = pre ++ F :: S :: post)
+    (hw : t.WF) (hg : t.Within g) (hc : g.loc.stop ≤ chrom.length)
+    (hF : F.stop = v.fe) (hS : S.start = v.ss)
+    (h1 : v.fe ≤ v.ls) (h2 : v.ls < v.ss) (h3 : v.ss ≤ v.le) :
+    applyAS g t.exons (seqOfExons chrom t.strand t.exons) (geneSeq chrom g) r
+      = seqOfExons chrom t.strand (pre ++ F :: ⟨v.ls, S.stop⟩ :: post) := by
+  obtain ⟨t', rs, ht', h, hr⟩ := a5Convert_mem_minus hs hout hm
+  rw [hi] at ht'; cases ht'
+  exact axTx_down_short he hw hg hc hF.symm hS.symm hF.symm (by simp only; omega)
+    (by simp only; omega) (by simp only; omega) h hr
+
+/-- A3SS, `+` strand, transcript uses the LONG site (`… F L …`, `F` = flanking exon, `L` starting
+at `longExonStart`): the record gives the isoform whose exon starts at `shortExonStart` -/
+theorem a3ss_spec_long_plus (chrom : List Char) (g : Gene) (txs : List Transcript) (v : AxSS)
+    (minIjc minSjc : Nat) (out : List (Nat × ASRec)) (i : Nat) (r : ASRec) (t : Transcript)
+    (pre post : List Iv) (F L : Iv) (hs : g.strand = .plus)
+    (hout : a3Convert v g txs minIjc minSjc = .ok out) (hm : (i, r) ∈ out)
+    (hi : txs[i]? = some t) (he : t.exons = pre ++ F :: L :: post)
+    (hw : t.WF) (hg : t.Within g) (hc : g.loc.stop ≤ chrom.length)
+    (hF : F.stop = v.fe) (hL : L.start = v.ls) (h1 : v.ls < v.ss) (h2 : v.ss < L.stop) :
+    applyAS g t.exons (seqOfExons chrom t.strand t.exons) (geneSeq chrom g) r
+      = seqOfExons chrom t.strand (pre ++ F :: ⟨v.ss, L.stop⟩ :: post) := by
+  obtain ⟨t', rs, ht', h, hr⟩ := a3Convert_mem_plus hs hout hm
+  rw [hi] at ht'; cases ht'
+  exact axTx_down_long he hw hg hc hF.symm hL.symm hF.symm (by simp only; omega) h2 h hr
+
+/-- A3SS, `+` strand, transcript uses the SHORT site (`… F S …`, `S` starting at
+`shortExonStart`): the record gives the isoform whose exon starts at `longExonStart` -/
+theorem a3ss_spec_short_plus (chrom : List Char) (g : Gene) (txs : List Transcript) (v : AxSS)
+    (minIjc minSjc : Nat) (out : List (Nat × ASRec)) (i : Nat) (r : ASRec) (t : Transcript)
+    (pre post : List Iv) (F S : Iv) (hs : g.strand = .plus)
+    (hout : a3Convert v g txs minIjc minSjc = .ok out) (hm : (i, r) ∈ out)
+    (hi : txs[i]? = some t) (he : t.exons = pre ++ F :: S :: post)
+    (hw : t.WF) (hg : t.Within g) (hc : g.loc.stop ≤ chrom.length)
+    (hF : F.stop = v.fe) (hS : S.start = v.ss)
+    (h1 : v.fe ≤ v.ls) (h2 : v.ls < v.ss) (h3 : v.ss ≤ v.le) :
+    applyAS g t.exons (seqOfExons chrom t.strand t.exons) (geneSeq chrom g) r
+      = seqOfExons chrom t.strand (pre ++ F :: ⟨v.ls, S.stop⟩ :: post) := by
+  obtain ⟨t', rs, ht', h, hr⟩ := a3Convert_mem_plus hs hout hm
+  rw [hi] at ht'; cases ht'
+  exact axTx_down_short he hw hg hc hF.symm hS.symm hF.symm (by simp only; omega)
+    (by simp only; omega) (by simp only; omega) h hr
+
+/-- A3SS, `-` strand, transcript uses the LONG site (`… L F …`, `L` ending at `longExonEnd`, `F` =
+flanking exon): the record gives the isoform whose exon ends at `shortExonEnd` -/
+theorem a3ss_spec_long_minus (chrom : List Char) (g : Gene) (txs : List Transcript) (v : AxSS)
+    (minIjc minSjc : Nat) (out : List (Nat × ASRec)) (i : Nat) (r : ASRec) (t : Transcript)
+    (pre post : List Iv) (L F : Iv) (hs : g.strand = .minus)
+    (hout : a3Convert v g txs minIjc minSjc = .ok out) (hm : (i, r) ∈ out)
+    (hi : txs[i]? = some t) (he : t.exons = pre ++ L :: F :: post)
+    (hw : t.WF) (hg : t.Within g) (hc : g.loc.stop ≤ chrom.length)
+    (hL : L.stop = v.le) (hF : F.start = v.fs) (h1 : L.start < v.se) (h2 : v.se < v.le) :
+    applyAS g t.exons (seqOfExons chrom t.strand t.exons) (geneSeq chrom g) r
+      = seqOfExons chrom t.strand (pre ++ ⟨L.start, v.se⟩ :: F :: post) := by
+  obtain ⟨t', rs, ht', h, hr⟩ := a3Convert_mem_minus hs hout hm
+  rw [hi] at ht'; cases ht'
+  exact axTx_up_long he hw hg hc hL.symm hF.symm hF.symm h1 (by simp only; omega) h hr
+
+/-- A3SS, `-` strand, transcript uses the SHORT site (`… S F …`, `S` ending at `shortExonEnd`):
+the record gives the isoform whose exon ends at `longExonEnd` -/
+theorem a3ss_spec_short_minus (chrom : List Char) (g : Gene) (txs : List Transcript) (v : AxSS)
+    (minIjc minSjc : Nat) (out : List (Nat × ASRec)) (i : Nat) (r : ASRec) (t : Transcript)
+    (pre post : List Iv) (S F : Iv) (hs : g.strand = .minus)
+    (hout : a3Convert v g txs minIjc minSjc = .ok out) (hm : (i, r) ∈ out)
+    (hi : txs[i]? = some t) (he : t.exons = pre ++ S :: F :: post)
+    (hw : t.WF) (hg : t.Within g) (hc : g.loc.stop ≤ chrom.length)
+    (hS : S.stop = v.se) (hF : F.start = v.fs)
+    (h1 : v.se < v.le) (h2 : v.le ≤ v.fs) (h3 : v.ls ≤ v.se) :
+    applyAS g t.exons (seqOfExons chrom t.strand t.exons) (geneSeq chrom g) r
+      = seqOfExons chrom t.strand (pre ++ ⟨S.start, v.le⟩ :: F :: post) := by
+  obtain ⟨t', rs, ht', h, hr⟩ := a3Convert_mem_minus hs hout hm
+  rw [hi] at ht'; cases ht'
+  exact axTx_up_short he hw hg hc hS.symm hF.symm hF.symm (by simp only; omega)
+    (by simp only; omega) (by simp only; omega) h hr
+
+/-! ## MXE, end to end -/
+
+/-- **Mutually exclusive exons, transcript has the first exon** (`… U F₁ D …`).  Every record
+the loop body of `MXERecord.convert_to_variant_records` emits for that transcript gives the
+isoform with the second exon in its place (`… U F₂ D …`), on both strands: the junction
+`F₁ → D` joins adjacent exons and emits nothing, `U → F₂` emits the Substitution of `F₁` by
+`F₂`. -/
+theorem mxe_spec_first (chrom : List Char) (g : Gene) (v : MXE) (minIjc minSjc : Nat)
+    (t : Transcript) (pre post : List Iv) (U F1 D : Iv) (rs : List ASRec) (r : ASRec)
+    (he : t.exons = pre ++ U :: F1 :: D :: post) (hw : t.WF) (hg : t.Within g)
+    (hc : g.loc.stop ≤ chrom.length)
+    (hU : U.stop = v.ue) (hF : F1 = ⟨v.f1s, v.f1e⟩) (hD : D.start = v.ds)
+    (h1 : v.f1e ≤ v.f2s) (h2 : v.f2s < v.f2e) (h3 : v.f2e ≤ v.ds)
+    (h : mxeTx v g minIjc minSjc t = .ok rs) (hr : r ∈ rs) :
+    applyAS g t.exons (seqOfExons chrom t.strand t.exons) (geneSeq chrom g) r
+      = seqOfExons chrom t.strand (pre ++ U :: ⟨v.f2s, v.f2e⟩ :: D :: post) := by
+  have hch := chain3_of_wf hw he
+  rcases mxeTx_mem h hr with ⟨_, rs', h', hr'⟩ | ⟨_, rs', h', hr'⟩
+  · have he' : t.exons = (pre ++ [U]) ++ F1 :: D :: post := by simp [he]
+    rw [alignConvert_adjacent he' hch.right (by simp [MXE.firstDownJ, hF])
+      (by simp [MXE.firstDownJ, hD])] at h'
+    cases h'; cases hr'
+  · rw [alignConvert_dn_subst (j := v.secondUpJ) he hw hg hc (by simp [MXE.secondUpJ, hU])
+      (by simp only [MXE.secondUpJ, hF]; omega) (by simp only [MXE.secondUpJ]; omega)
+      (by simp only [MXE.secondUpJ]; omega) h' hr']
+    have : min D.start v.f2e = v.f2e := by omega
+    simp only [MXE.secondUpJ, this]
+
+/-- **Mutually exclusive exons, transcript has the second exon** (`… U F₂ D …`).  Every record
+emitted for that transcript gives the isoform with the first exon in its place, on both
+strands: `U → F₂` joins adjacent exons and emits nothing, `F₁ → D` emits the Substitution of
+`F₂` by `F₁`. -/
+theorem mxe_spec_second (chrom : List Char) (g : Gene) (v : MXE) (minIjc minSjc : Nat)
+    (t : Transcript) (pre post : List Iv) (U F2 D : Iv) (rs : List ASRec) (r : ASRec)
+    (he : t.exons = pre ++ U :: F2 :: D :: post) (hw : t.WF) (hg : t.Within g)
+    (hc : g.loc.stop ≤ chrom.length)
+    (hU : U.stop = v.ue) (hF : F2 = ⟨v.f2s, v.f2e⟩) (hD : D.start = v.ds)
+    (h1 : v.ue ≤ v.f1s) (h2 : v.f1s < v.f1e) (h3 : v.f1e ≤ v.f2s)
+    (h : mxeTx v g minIjc minSjc t = .ok rs) (hr : r ∈ rs) :
+    applyAS g t.exons (seqOfExons chrom t.strand t.exons) (geneSeq chrom g) r
+      = seqOfExons chrom t.strand (pre ++ U :: ⟨v.f1s, v.f1e⟩ :: D :: post) := by
+  have hch := chain3_of_wf hw he
+  rcases mxeTx_mem h hr with ⟨_, rs', h', hr'⟩ | ⟨_, rs', h', hr'⟩
+  · rw [alignConvert_un_subst (j := v.firstDownJ) he hw hg hc (by simp [MXE.firstDownJ, hD])
+      (by simp only [MXE.firstDownJ]; omega) (by simp only [MXE.firstDownJ, hF]; omega)
+      (by simp only [MXE.firstDownJ]; omega) h' hr']
+    have : max U.stop v.f1s = v.f1s := by omega
+    simp only [MXE.firstDownJ, this]
+  · rw [alignConvert_adjacent he hch.left (by simp [MXE.secondUpJ, hU])
+      (by simp [MXE.secondUpJ, hF])] at h'
+    cases h'; cases hr'
+
+/-- `mxe_spec_first` for a record of the whole `MXERecord.convert_to_variant_records` call (after
+`list(set(variants))`: a surviving record carries the index of the first transcript that
+produced it) -/
+theorem mxe_spec_first_event (chrom : List Char) (g : Gene) (txs : List Transcript) (v : MXE)
+    (minIjc minSjc : Nat) (out : List (Nat × ASRec)) (i : Nat) (r : ASRec) (t : Transcript)
+    (pre post : List Iv) (U F1 D : Iv)
+    (hout : mxeConvert v g txs minIjc minSjc = .ok out) (hm : (i, r) ∈ out)
+    (hi : txs[i]? = some t) (he : t.exons = pre ++ U :: F1 :: D :: post)
+    (hw : t.WF) (hg : t.Within g) (hc : g.loc.stop ≤ chrom.length)
+    (hU : U.stop = v.ue) (hF : F1 = ⟨v.f1s, v.f1e⟩) (hD : D.start = v.ds)
+    (h1 : v.f1e ≤ v.f2s) (h2 : v.f2s < v.f2e) (h3 : v.f2e ≤ v.ds) :
+    applyAS g t.exons (seqOfExons chrom t.strand t.exons) (geneSeq chrom g) r
+      = seqOfExons chrom t.strand (pre ++ U :: ⟨v.f2s, v.f2e⟩ :: D :: post) := by
+  obtain ⟨t', rs, ht', h, hr⟩ := mxeConvert_mem hout hm
+  rw [hi] at ht'; cases ht'
+  exact mxe_spec_first chrom g v minIjc minSjc t pre post U F1 D rs r he hw hg hc hU hF hD
+    h1 h2 h3 h hr
+
+/-- `mxe_spec_second` for a record of the whole `MXERecord.convert_to_variant_records` call -/
+theorem mxe_spec_second_event (chrom : List Char) (g : Gene) (txs : List Transcript) (v : MXE)
+    (minIjc minSjc : Nat) (out : List (Nat × ASRec)) (i : Nat) (r : ASRec) (t : Transcript)
+    (pre post : List Iv) (U F2 D : Iv)
+    (hout : mxeConvert v g txs minIjc minSjc = .ok out) (hm : (i, r) ∈ out)
+    (hi : txs[i]? = some t) (he : t.exons = pre ++ U :: F2 :: D :: post)
+    (hw : t.WF) (hg : t.Within g) (hc : g.loc.stop ≤ chrom.length)
+    (hU : U.stop = v.ue) (hF : F2 = ⟨v.f2s, v.f2e⟩) (hD : D.start = v.ds)
+    (h1 : v.ue ≤ v.f1s) (h2 : v.f1s < v.f1e) (h3 : v.f1e ≤ v.f2s) :
+    applyAS g t.exons (seqOfExons chrom t.strand t.exons) (geneSeq chrom g) r
+      = seqOfExons chrom t.strand (pre ++ U :: ⟨v.f1s, v.f1e⟩ :: D :: post) := by
+  obtain ⟨t', rs, ht', h, hr⟩ := mxeConvert_mem hout hm
+  rw [hi] at ht'; cases ht'
+  exact mxe_spec_second chrom g v minIjc minSjc t pre post U F2 D rs r he hw hg hc hU hF hD
+    h1 h2 h3 h hr
+
+/-! ## non-vacuity of the SE / A5SS / A3SS / MXE theorems
+
+Concrete genes on both strands, transcripts satisfying `WF` / `Within`, events whose exons
+coincide with the transcript's: the model emits exactly one record, and the theorem applies to it
+(every hypothesis is discharged by `rfl` / `decide`). -/
+
+def exPlusGene : Gene := { strand := .plus, loc := ⟨2, 60⟩ }
+def exIncl : Transcript := { strand := .minus, exons := [⟨4, 9⟩, ⟨12, 20⟩, ⟨25, 31⟩, ⟨40, 52⟩] }
+def exSkip : Transcript := { strand := .minus, exons := [⟨4, 9⟩, ⟨12, 20⟩, ⟨40, 52⟩] }
+def exInclP : Transcript := { exIncl with strand := .plus }
+def exSkipP : Transcript := { exSkip with strand := .plus }
+def exSE : SE := { es := 25, ee := 31, us := 12, ue := 20, ds := 40, de := 52, ijc := 3, sjc := 2 }
+
+example : exIncl.WF ∧ exIncl.Within exGene ∧ exSkip.WF ∧ exSkip.Within exGene ∧ exInclP.WF
+    ∧ exInclP.Within exPlusGene ∧ exSkipP.WF ∧ exSkipP.Within exPlusGene := by decide
+
+example : seTx exSE exGene 1 1 exIncl = .ok [⟨.deletion, 29, 35, 0, 0⟩] := by decide
+example : seTx exSE exPlusGene 1 1 exInclP = .ok [⟨.deletion, 23, 29, 0, 0⟩] := by decide
+example : seTx exSE exGene 1 1 exSkip = .ok [⟨.insertion, 19, 20, 29, 35⟩] := by decide
+example : seTx exSE exPlusGene 1 1 exSkipP = .ok [⟨.insertion, 17, 18, 23, 29⟩] := by decide
+
+example : applyAS exGene exIncl.exons (seqOfExons exChrom .minus exIncl.exons)
+    (geneSeq exChrom exGene) ⟨.deletion, 29, 35, 0, 0⟩ = seqOfExons exChrom .minus exSkip.exons :=
+  se_skip_spec exChrom exGene exSE 1 1 exIncl [⟨4, 9⟩] [] ⟨12, 20⟩ ⟨25, 31⟩ ⟨40, 52⟩
+    [⟨.deletion, 29, 35, 0, 0⟩] _ rfl (by decide) (by decide) (by decide) rfl rfl rfl (by decide)
+    List.mem_cons_self
+
+example : applyAS exPlusGene exSkipP.exons (seqOfExons exChrom .plus exSkipP.exons)
+    (geneSeq exChrom exPlusGene) ⟨.insertion, 17, 18, 23, 29⟩
+      = seqOfExons exChrom .plus exInclP.exons :=
+  se_include_spec exChrom exPlusGene exSE 1 1 exSkipP [⟨4, 9⟩] [] ⟨12, 20⟩ ⟨40, 52⟩
+    [⟨.insertion, 17, 18, 23, 29⟩] _ rfl (by decide) (by decide) (by decide) rfl rfl (by decide)
+    (by decide) (by decide) (by decide) List.mem_cons_self
+
+/-- the minus-strand exception of `se_skip_exact`: the downstream exon is a 1-nt last exon, the
+skip form is novel, the read support suffices, and nothing is emitted (on `+` the Deletion is) -/
+def exOneNt : Transcript := { strand := .minus, exons := [⟨4, 9⟩, ⟨12, 20⟩, ⟨25, 31⟩, ⟨40, 41⟩] }
+example : exOneNt.WF ∧ exOneNt.Within exGene := by decide
+example : seTx { exSE with de := 41 } exGene 1 1 exOneNt = .ok [] := by decide
+example : seTx { exSE with de := 41 } exPlusGene 1 1 { exOneNt with strand := .plus }
+    = .ok [⟨.deletion, 23, 29, 0, 0⟩] := by decide
+
+/-- upstream side (A5SS on `+`, A3SS on `-`): long exon `[12, 24)`, short `[12, 20)`, flanking
+`[40, 52)` -/
+def exAxUp : AxSS := { ls := 12, le := 24, ss := 12, se := 20, fs := 40, fe := 52, ijc := 3, sjc := 2 }
+def exLongP : Transcript := { strand := .plus, exons := [⟨4, 9⟩, ⟨12, 24⟩, ⟨40, 52⟩] }
+def exLongM : Transcript := { exLongP with strand := .minus }
+/-- downstream side (A3SS on `+`, A5SS on `-`): flanking `[4, 9)`, long `[12, 20)`, short
+`[15, 20)` -/
+def exAxDown : AxSS := { ls := 12, le := 20, ss := 15, se := 20, fs := 4, fe := 9, ijc := 3, sjc := 2 }
+def exShortP : Transcript := { strand := .plus, exons := [⟨4, 9⟩, ⟨15, 20⟩, ⟨40, 52⟩] }
+def exShortM : Transcript := { exShortP with strand := .minus }
+
+example : exLongP.WF ∧ exLongP.Within exPlusGene ∧ exLongM.WF ∧ exLongM.Within exGene
+    ∧ exShortP.WF ∧ exShortP.Within exPlusGene ∧ exShortM.WF ∧ exShortM.Within exGene := by decide
+
+example : a5Convert exAxUp exPlusGene [exLongP] 1 1 = .ok [(0, ⟨.deletion, 18, 22, 0, 0⟩)] := by
+  decide
+example : a5Convert exAxUp exPlusGene [exSkipP] 1 1 = .ok [(0, ⟨.insertion, 17, 18, 18, 22⟩)] := by
+  decide
+example : a3Convert exAxUp exGene [exLongM] 1 1 = .ok [(0, ⟨.deletion, 36, 40, 0, 0⟩)] := by decide
+example : a3Convert exAxUp exGene [exSkip] 1 1 = .ok [(0, ⟨.insertion, 19, 20, 36, 40⟩)] := by
+  decide
+example : a3Convert exAxDown exPlusGene [exSkipP] 1 1 = .ok [(0, ⟨.deletion, 10, 13, 0, 0⟩)] := by
+  decide
+example : a3Convert exAxDown exPlusGene [exShortP] 1 1 = .ok [(0, ⟨.insertion, 6, 7, 10, 13⟩)] := by
+  decide
+example : a5Convert exAxDown exGene [exSkip] 1 1 = .ok [(0, ⟨.deletion, 45, 48, 0, 0⟩)] := by decide
+example : a5Convert exAxDown exGene [exShortM] 1 1 = .ok [(0, ⟨.insertion, 44, 45, 45, 48⟩)] := by
+  decide
+
+example : applyAS exPlusGene exLongP.exons (seqOfExons exChrom .plus exLongP.exons)
+    (geneSeq exChrom exPlusGene) ⟨.deletion, 18, 22, 0, 0⟩
+      = seqOfExons exChrom .plus exSkipP.exons :=
+  a5ss_spec_long_plus exChrom exPlusGene [exLongP] exAxUp 1 1
+    [(0, ⟨.deletion, 18, 22, 0, 0⟩)] 0 _ exLongP [⟨4, 9⟩] [] ⟨12, 24⟩ ⟨40, 52⟩ rfl (by decide)
+    List.mem_cons_self rfl rfl (by decide) (by decide) (by decide) rfl rfl (by decide) (by decide)
+
+example : applyAS exGene exSkip.exons (seqOfExons exChrom .minus exSkip.exons)
+    (geneSeq exChrom exGene) ⟨.insertion, 19, 20, 36, 40⟩
+      = seqOfExons exChrom .minus exLongM.exons :=
+  a3ss_spec_short_minus exChrom exGene [exSkip] exAxUp 1 1
+    [(0, ⟨.insertion, 19, 20, 36, 40⟩)] 0 _ exSkip [⟨4, 9⟩] [] ⟨12, 20⟩ ⟨40, 52⟩ rfl (by decide)
+    List.mem_cons_self rfl rfl (by decide) (by decide) (by decide) rfl rfl (by decide) (by decide)
+    (by decide)
+
+example : applyAS exPlusGene exSkipP.exons (seqOfExons exChrom .plus exSkipP.exons)
+    (geneSeq exChrom exPlusGene) ⟨.deletion, 10, 13, 0, 0⟩
+      = seqOfExons exChrom .plus exShortP.exons :=
+  a3ss_spec_long_plus exChrom exPlusGene [exSkipP] exAxDown 1 1
+    [(0, ⟨.deletion, 10, 13, 0, 0⟩)] 0 _ exSkipP [] [⟨40, 52⟩] ⟨4, 9⟩ ⟨12, 20⟩ rfl (by decide)
+    List.mem_cons_self rfl rfl (by decide) (by decide) (by decide) rfl rfl (by decide) (by decide)
+
+example : applyAS exGene exShortM.exons (seqOfExons exChrom .minus exShortM.exons)
+    (geneSeq exChrom exGene) ⟨.insertion, 44, 45, 45, 48⟩
+      = seqOfExons exChrom .minus exSkip.exons :=
+  a5ss_spec_short_minus exChrom exGene [exShortM] exAxDown 1 1
+    [(0, ⟨.insertion, 44, 45, 45, 48⟩)] 0 _ exShortM [] [⟨40, 52⟩] ⟨4, 9⟩ ⟨15, 20⟩ rfl (by decide)
+    List.mem_cons_self rfl rfl (by decide) (by decide) (by decide) rfl rfl (by decide) (by decide)
+    (by decide)
+
+def exMXE : MXE :=
+  { f1s := 25, f1e := 31, f2s := 33, f2e := 36, us := 12, ue := 20, ds := 40, de := 52, ijc := 3,
+    sjc := 2 }
+def exSecond : Transcript := { strand := .minus, exons := [⟨4, 9⟩, ⟨12, 20⟩, ⟨33, 36⟩, ⟨40, 52⟩] }
+def exSecondP : Transcript := { exSecond with strand := .plus }
+
+example : exSecond.WF ∧ exSecond.Within exGene ∧ exSecondP.WF ∧ exSecondP.Within exPlusGene := by
+  decide
+example : mxeConvert exMXE exGene [exIncl] 1 1 = .ok [(0, ⟨.substitution, 29, 35, 24, 27⟩)] := by
+  unfold mxeConvert; decide
+example : mxeConvert exMXE exGene [exSecond] 1 1 = .ok [(0, ⟨.substitution, 24, 27, 29, 35⟩)] := by
+  unfold mxeConvert; decide
+example : mxeConvert exMXE exPlusGene [exInclP] 1 1
+    = .ok [(0, ⟨.substitution, 23, 29, 31, 34⟩)] := by unfold mxeConvert; decide
+example : mxeConvert exMXE exPlusGene [exSecondP] 1 1
+    = .ok [(0, ⟨.substitution, 31, 34, 23, 29⟩)] := by unfold mxeConvert; decide
+
+example : applyAS exGene exIncl.exons (seqOfExons exChrom .minus exIncl.exons)
+    (geneSeq exChrom exGene) ⟨.substitution, 29, 35, 24, 27⟩
+      = seqOfExons exChrom .minus exSecond.exons :=
+  mxe_spec_first_event exChrom exGene [exIncl] exMXE 1 1
+    [(0, ⟨.substitution, 29, 35, 24, 27⟩)] 0 _ exIncl [⟨4, 9⟩] [] ⟨12, 20⟩ ⟨25, 31⟩ ⟨40, 52⟩
+    (by unfold mxeConvert; decide)
+    List.mem_cons_self rfl rfl (by decide) (by decide) (by decide) rfl rfl rfl (by decide)
+    (by decide) (by decide)
+
+example : applyAS exPlusGene exSecondP.exons (seqOfExons exChrom .plus exSecondP.exons)
+    (geneSeq exChrom exPlusGene) ⟨.substitution, 31, 34, 23, 29⟩
+      = seqOfExons exChrom .plus exInclP.exons :=
+  mxe_spec_second_event exChrom exPlusGene [exSecondP] exMXE 1 1
+    [(0, ⟨.substitution, 31, 34, 23, 29⟩)] 0 _ exSecondP [⟨4, 9⟩] [] ⟨12, 20⟩ ⟨33, 36⟩ ⟨40, 52⟩
+    (by unfold mxeConvert; decide)
+    List.mem_cons_self rfl rfl (by decide) (by decide) (by decide) rfl rfl rfl (by decide)
+    (by decide) (by decide)
 
 end MoPepGen.Props.C16
